@@ -127,6 +127,7 @@ var dbEnvStubs = map[string]string{
 	"os.CreateTemp":                                "verifStubCreateTemp",
 	"os.Remove":                                    "verifStubRemove",
 	"os.Rename":                                    "verifStubRename",
+	"os.Link":                                      "verifStubLink",
 	"(*os.File).Name":                              "verifStubFileName",
 	"(*os.File).Write":                             "verifStubFileWrite",
 	"(*os.File).Chmod":                             "verifStubFileChmod",
@@ -186,6 +187,9 @@ func init() {
 			ExpectReach: []string{"end-fault", "end-no-fault"}, NoNative: envNote,
 			Desc: "DB." + n + " with a failing save: memory, generation and file unchanged; retry succeeds"})
 	}
+	c04.Harnesses = append(c04.Harnesses, &HarnessSpec{Name: "verifHarnessC04SaveReal", Pkg: "db", Stubs: withReal(dbEnvStubs, "tailscale.com/atomicfile.WriteFile"),
+		Params: map[string]int{"secrets": 1, "versions": 1}, ThoroughParams: map[string]int{"secrets": 2, "versions": 2}, ExpectReach: []string{"end-crash", "end-error", "end-ok"}, NoNative: envNote,
+		Desc: "kv.save itself with the real atomicfile.WriteFile over the FS model (errors carry the types the os package gives them: *fs.PathError, *os.LinkError): whatever save does around the atomic write obeys the same rules"})
 	c04.Harnesses = append(c04.Harnesses, &HarnessSpec{Name: "verifHarnessC04Create", Pkg: "db", Stubs: dbEnvStubs, Params: map[string]int{},
 		ExpectReach: []string{"end-error", "end-ok"}, NoNative: envNote, Desc: "database creation under faults of every step"})
 	propRegistry = append(propRegistry, c04)
